@@ -48,11 +48,26 @@ func (p *sliceProvider) FirstTID() uint32           { return 1 }
 func (p *sliceProvider) LastTID() uint32            { return uint32(len(p.toks)) }
 func (p *sliceProvider) Ordered() bool              { return p.ordered }
 
+// str renders a model string. The model's alphabet is bytes: the two symbols X and Y stand for the bytes 0xC3 and
+// 0xA9 (X Y = the 2-byte character e-acute), so that dictionary borders and hints can fall inside a character.
+func str(s cases.Str) string {
+	b := []byte(s.String())
+	for i := range b {
+		switch b[i] {
+		case 'X':
+			b[i] = 0xC3
+		case 'Y':
+			b[i] = 0xA9
+		}
+	}
+	return string(b)
+}
+
 func term(s cases.Str) parser.Term {
 	if s.IsStar() {
 		return parser.Term{Kind: parser.TermSymbol, Data: "*"}
 	}
-	return parser.Term{Kind: parser.TermText, Data: s.String()}
+	return parser.Term{Kind: parser.TermText, Data: str(s)}
 }
 
 func (t Tok) token() parser.Token {
@@ -140,7 +155,7 @@ func main() {
 		}
 		exp := make([]string, 0, len(c.Exp))
 		for _, s := range c.Exp {
-			exp = append(exp, s.String())
+			exp = append(exp, str(s))
 		}
 		sort.Strings(exp)
 		if len(exp) > 0 && len(exp) < len(c.Dict) {
@@ -148,7 +163,7 @@ func main() {
 		}
 		dict := make([][]byte, len(c.Dict))
 		for i, s := range c.Dict {
-			dict[i] = []byte(s.String())
+			dict[i] = []byte(str(s))
 		}
 		// unordered: reversed + rotated order
 		un := make([][]byte, 0, len(dict))
